@@ -386,7 +386,12 @@ def replay(model, seed, case, inst, negative=False):
     qnear = Q(x, qt, axis)
     qnear._scale = qa._scale * 1.000002
     op = inst["op"]
+    x3 = torch.randn(2, 3, 4)
+    q3 = Q(x3, qt, axis)
     progs = {
+        "transpose-3d-01": lambda: (q3.transpose(0, 1), q3.dequantize().transpose(0, 1)), "transpose-3d-12": lambda: (q3.transpose(1, 2), q3.dequantize().transpose(1, 2)),
+        "transpose-3d-neg": lambda: (q3.transpose(-1, -2), q3.dequantize().transpose(-1, -2)),
+        "transpose-3d-negfirst": lambda: (q3.transpose(-3, 1), q3.dequantize().transpose(-3, 1)), "permute-3d": lambda: (q3.permute(1, 0, 2), q3.dequantize().permute(1, 0, 2)),
         "cat-three": lambda: (torch.cat([qa, qb, qc]), torch.cat([qa.dequantize(), qb.dequantize(), qc.dequantize()])),
         "stack-three": lambda: (torch.stack([qa, qb, qc]), torch.stack([qa.dequantize(), qb.dequantize(), qc.dequantize()])),
         "stack-any-scales": lambda: (torch.stack([qa, qb]), torch.stack([qa.dequantize(), qb.dequantize()])),
